@@ -71,8 +71,12 @@ def m_u32_child(ex, c, args, m):
     if op == 'weak_shape_impl': return Unit()
     if op.endswith('_iter') or op.endswith('_iter_mut'): return It([])
     if op == 'to_syntax':
-        v = dd(args[0]); return VecVal([Enum(ex.session.enums['SyntaxElem::String'], Struct({0: PyStr(str(conc(v)))}), 'SyntaxElem')])
+        v = dd(args[0])
+        try: t = str(conc(v))
+        except Unsupported: t = '<numeral>'       # a symbolic number: only the length of the syntax is looked at (parse.rs)
+        return VecVal([Enum(ex.session.enums['SyntaxElem::String'], Struct({0: PyStr(t)}), 'SyntaxElem')])
     if op == 'from_syntax':
+        return NotImplemented      # executed from the macro's MIR (parse_mir tells the per-type copies apart)
         sl = args[0]
         if len(sl) != 1: return none()
         e = dd(sl.lst[sl.start])
@@ -80,3 +84,19 @@ def m_u32_child(ex, c, args, m):
         t = str(dd(e.payload.f[0]))
         return some(z3.BitVecVal(int(t), 32)) if re.fullmatch(r'\+?\d+', t) and int(t) < 2**32 else none()
     return NotImplemented
+
+# Symbol payloads: a symbol is its text (symbol_table interns; equality of symbols is equality of texts)
+@M.add(r'^core::str::<impl str>::parse::<(symbol_table::)?(global::)?GlobalSymbol>$|^<(symbol_table::)?(global::)?GlobalSymbol as (From<&str>|FromStr)>::(from|from_str)$', front=True, first=True)
+def m_symbol_parse(ex, c, args, m):
+    v = Struct({0: dd(args[0])}, 'GlobalSymbol')
+    return ok(v) if 'parse' in c or 'from_str' in c else v
+@M.add(r'^<(symbol_table::)?(global::)?GlobalSymbol as (PartialEq|Clone)>::(eq|ne|clone)$', front=True, first=True)
+def m_symbol_eq(ex, c, args, m):
+    if m.group(4) == 'clone': return dd(args[0])
+    from .strings import SStr, lit, seq_eq
+    a, b = dd(dd(args[0]).f[0]), dd(dd(args[1]).f[0])
+    if isinstance(a, SStr) or isinstance(b, SStr): e = seq_eq(lit(a), lit(b))
+    else: e = z3.BoolVal(str(a) == str(b))
+    return e if m.group(4) == 'eq' else z3.Not(e)
+@M.add(r'^<(symbol_table::)?(global::)?GlobalSymbol as ToString>::to_string$|^(symbol_table::)?(global::)?GlobalSymbol::as_str$', front=True, first=True)
+def m_symbol_to_string(ex, c, args, m): return dd(dd(args[0]).f[0])
